@@ -254,7 +254,7 @@ def stat_body_factory(ctx):
 @st.composite
 def cases(draw, thorough=False):
     spec = draw(gens.problems(max_surveys=4 if thorough else 3, max_epochs=30 if thorough else 8,
-                              max_poly=4 if thorough else 3, n_rows=(3, 8)))
+                              max_poly=4 if thorough else 3, n_rows=(3, 8), allow_f4=True))
     spec["path"] = draw(st.sampled_from(["mem", "mem", "cache", "file"]))
     spec["n_linear"] = draw(st.sampled_from([1, 1, 2, 3, 5, 16, 64]))
     spec["rng_seed"] = draw(st.integers(0, 2**32 - 1))
